@@ -64,15 +64,14 @@ func (a *Aggregate) Aggregate(message string) error {
 		set.Samples += samples
 	}
 
-	// Merge data from group into global group.
-	isMerged, err := a.globalGroup.MergeNoblock(a.query, a.group)
-	if err != nil {
+	// Merge data from group into global group. This has to wait for its turn:
+	// data left behind in the local group would be lost if this was the last
+	// message of the connection.
+	if err := a.globalGroup.Merge(a.query, a.group); err != nil {
 		panic(err)
 	}
-	if isMerged {
-		// Re-init local group (make it empty again).
-		a.group.InitSet()
-	}
+	// Re-init local group (make it empty again).
+	a.group.InitSet()
 	return nil
 }
 
